@@ -58,7 +58,8 @@ def encode_marg(term):
     if name == 'spline_term':
         ek = term.edge_knots_
         return ['S', str(term.feature), str(int(term.n_splines)), str(int(term.spline_order)),
-                '1' if term.basis == 'cp' else '0', str(-1 if term.by is None else int(term.by)), q(ek[0]), q(ek[1])] + _lamspec(term) + _conspec(term)
+                str((1 if term.basis == 'cp' else 0) + (2 if getattr(term, 'dtype', 'numerical') == 'categorical' else 0)),
+                str(-1 if term.by is None else int(term.by)), q(ek[0]), q(ek[1])] + _lamspec(term) + _conspec(term)
     raise ValueError('cannot encode ' + name)
 
 
@@ -89,7 +90,7 @@ def uses_periodic_penalty(term):
     for p in term.penalties:
         if p == 'periodic':
             return True
-        if p == 'auto' and term._name == 'spline_term' and term.basis == 'cp':
+        if p == 'auto' and term._name == 'spline_term' and term.basis == 'cp' and getattr(term, 'dtype', 'numerical') == 'numerical':
             return True
     return False
 
@@ -174,6 +175,7 @@ def gen_program(rng, pygam_mod, n_rows=12, n_query=8, allow_constraints=True, al
     by_feats = [j for j, k in enumerate(kinds) if k == 'by'] or num_feats
 
     spline_cfg = {}   # feature -> list of (n_splines, order, cyclic) used, to place query points safely
+    cat_spline_feats = set()   # features of spline terms declared dtype='categorical'
 
     def rand_lam():
         return rng.choice([0.0, 0.6, 1.0, 2.5, 10.0, 0.015625, 100.0])
@@ -213,8 +215,15 @@ def gen_program(rng, pygam_mod, n_rows=12, n_query=8, allow_constraints=True, al
             ek = [float(lo - 0.25 * (hi - lo)), float(hi + 0.5 * (hi - lo))]
             if rng.random() < 0.35:
                 ek = ek[::-1]       # a pair of edge knots is a set: the order in which the user gives it is immaterial
+        # dtype='categorical' on a spline term: 'auto' resolves to the ridge penalty and the data knots are widened by 0.5
+        # (continuous bases only: the safe positions of order-0 / cyclic bases are relative to the data range)
+        # A categorical feature is domain-checked at query time (values outside the training range are rejected, C11), so
+        # such a feature is never also a by-variable and its query values stay inside the training range
+        dtype = 'categorical' if (order >= 1 and basis == 'ps' and feat not in by_feats and rng.random() < 0.15) else 'numerical'
+        if dtype == 'categorical':
+            cat_spline_feats.add(feat)
         t = SplineTerm(feat, n_splines=n_spl, spline_order=order, lam=lam, penalties=pens if npen > 1 else pens[0],
-                       constraints=cons, basis=basis, by=by, edge_knots=ek)
+                       constraints=cons, basis=basis, by=by, edge_knots=ek, dtype=dtype)
         spline_cfg.setdefault(feat, []).append((n_spl, order, basis == 'cp', ek))
         return t
 
@@ -291,7 +300,7 @@ def gen_program(rng, pygam_mod, n_rows=12, n_query=8, allow_constraints=True, al
                     u += rng.choice([-1, 1, 2])
             else:
                 u = rng.randint(0, 256) / 256.0
-                if extrap and rng.random() < 0.35:
+                if extrap and feat not in cat_spline_feats and rng.random() < 0.35:
                     u = rng.choice([-0.5, -2.25, 1.5, 3.75, -0.0625, 1.03125])
             Xq[i, feat] = lo + (hi - lo) * u
     for j, k in enumerate(kinds):
